@@ -14,6 +14,7 @@ import TlxVerif.Proofs.C01Query
 import TlxVerif.Proofs.C01Copy
 import TlxVerif.Proofs.C01EraseE
 import TlxVerif.Proofs.C01EraseG
+import TlxVerif.Proofs.C01EraseH
 namespace TlxVerif.C01
 
 variable {K V : Type}
@@ -167,13 +168,22 @@ theorem erase_iter_refines_partial (p : Params K) (pv : p.Valid) (t : Tree K V) 
   rw [hfl, h3]
   simp [Tree.leafChain, hr]
 
--- OPEN: erase_iter_refines — for a dereferenceable iterator `erase(iterator)` always finds its leaf
---   (`res.erased = true`): the depth-first search that starts at `find_lower(iter.key())` and walks right
---   reaches the leaf; needs the order invariant (completeness of the search loop), not yet proved.
-def erase_iter_refines_statement (p : Params K) : Prop :=
-  ∀ (t : Tree K V) (leaf slot : Nat) (e : K × V), TreeInv p t → deref t.leafChain (leaf, slot) = some e →
-    ∃ res, eraseIter p t leaf slot = some res ∧ res.erased = true ∧
-      res.tree.toList = t.toList.eraseIdx (rankOf t.leafChain (some (leaf, slot)))
+/-- **`erase(iterator)`** for a dereferenceable iterator: the depth-first search that starts at
+`find_lower(iter.key())` and walks to the right always finds the iterator's leaf; the entry sequence loses
+exactly the entry the iterator refers to, and the result satisfies the invariant again -/
+theorem erase_iter_refines (p : Params K) (pv : p.Valid) (sw : StrictWeak p.lt) (t : Tree K V) (ht : TreeInv p t)
+    (leaf slot : Nat) (e : K × V) (he : deref t.leafChain (leaf, slot) = some e) :
+    ∃ res, eraseIter p t leaf slot = some res ∧ res.erased = true ∧ TreeInv p res.tree ∧
+      res.tree.toList = t.toList.eraseIdx (rankOf t.leafChain (some (leaf, slot))) := by
+  obtain ⟨res, h1, h2⟩ := eraseIter_erases p pv sw t ht leaf slot e he
+  obtain ⟨res', h3, h4⟩ := erase_iter_refines_partial p pv t ht leaf slot e he
+  rw [h1] at h3
+  cases h3
+  obtain ⟨res'', h5, h6⟩ := eraseTop_treeInv p pv sw (.iter leaf slot e.1) t ht
+  have h7 : eraseIter p t leaf slot = some res'' := by simp only [eraseIter, he, h5]
+  rw [h1] at h7
+  cases h7
+  exact ⟨res, h1, h2, h6, h4 h2⟩
 
 /-! ## histories of insertions and erasures -/
 
